@@ -385,3 +385,6 @@ func UncheckedIndexUses(fn *ssa.Function, r ssa.Value, access Matcher) []ssa.Cal
 	}
 	return out
 }
+
+// SameQuantity is the exported form of sameQuantity.
+func SameQuantity(a, b ssa.Value) bool { return sameQuantity(a, b) }
